@@ -36,12 +36,111 @@ def make_cfg(static_file, on_error="continue", extra=None):
     return cfg
 
 
+def install_recorders(rec, clock, who=None):
+    """Recording wrappers around the real ScheduleHandle / AsyncExecutor / execute_single / Sampler.add. `who()` may name the
+    simulated process (worker) the code currently runs in. Returns undo()."""
+    undo = []
+
+    # --- schedule tuples (read from the real ScheduleHandle so the oracle does not re-implement the scheduler)
+    orig_sh_call = driver.ScheduleHandle.__call__
+
+    def sh_call(handle):
+        agen = orig_sh_call(handle)
+        key = (handle.task_allocation.global_client_index, handle.task_allocation.task.name)
+
+        async def wrapped():
+            async for tup in agen:
+                lst = rec.schedule.setdefault(key, [])
+                lst.append({"scheduled": tup[0], "sample_type": int(tup[1]), "percent": tup[2], "vt": clock.now})
+                yield tup
+
+        return wrapped()
+
+    driver.ScheduleHandle.__call__ = sh_call
+    undo.append(lambda: setattr(driver.ScheduleHandle, "__call__", orig_sh_call))
+
+    # --- issuer context per executor (client, task) and per logical request
+    orig_exec_call = driver.AsyncExecutor.__call__
+
+    async def exec_call(ex, *a, **k):
+        issuer = {"client": ex.client_id, "task": ex.task.name, "ordinal": -1}
+        simes.ISSUER.set(issuer)
+        rec.start_info[(ex.client_id, ex.task.name)] = {"vt_total_start": clock.now, "ramp_up": ex.schedule_handle.ramp_up_wait_time}
+        ta = getattr(ex.schedule_handle, "task_allocation", None)
+        run = {"client": ex.client_id, "task": ex.task.name, "index_in_task": getattr(ta, "client_index_in_task", None), "vt_start": clock.now,
+               "vt_end": None, "who": who() if who else None, "raised": None}
+        issuer["run"] = len(rec.runs)
+        rec.runs.append(run)
+        try:
+            return await orig_exec_call(ex, *a, **k)
+        except BaseException as e:
+            run["raised"] = type(e).__name__
+            raise
+        finally:
+            run["vt_end"] = clock.now
+
+    driver.AsyncExecutor.__call__ = exec_call
+    undo.append(lambda: setattr(driver.AsyncExecutor, "__call__", orig_exec_call))
+
+    orig_execute_single = driver.execute_single
+
+    async def execute_single(rnr, es, params, on_error):
+        issuer = simes.ISSUER.get()
+        entry = None
+        if issuer is not None:
+            issuer["ordinal"] += 1
+            issuer["wire"] = []
+            entry = {"client": issuer["client"], "task": issuer["task"], "ordinal": issuer["ordinal"], "vt_begin": clock.now, "wire": issuer["wire"], "run": issuer.get("run")}
+            rec.logical.append(entry)
+        try:
+            res = await orig_execute_single(rnr, es, params, on_error)
+            if entry is not None:
+                entry["vt_finish"] = clock.now
+                entry["result"] = {"ops": res[0], "unit": res[1], "success": res[2].get("success") if isinstance(res[2], dict) else None}
+            return res
+        except BaseException as e:
+            if entry is not None:
+                entry["vt_finish"] = clock.now
+                entry["raised"] = type(e).__name__
+            raise
+
+    driver.execute_single = execute_single
+    undo.append(lambda: setattr(driver, "execute_single", orig_execute_single))
+
+    # --- samples
+    orig_add = driver.Sampler.add
+
+    def add(sampler, task, client_id, sample_type, meta_data, absolute_time, request_start, latency, service_time, processing_time,
+            throughput, ops, ops_unit, time_period, percent_completed, dependent_timing=None):
+        rec.samples.append(
+            {
+                "task": task.name, "client": client_id, "sample_type": int(sample_type), "meta": dict(meta_data) if meta_data else meta_data,
+                "absolute_time": absolute_time, "request_start": request_start, "latency": latency, "service_time": service_time,
+                "processing_time": processing_time, "throughput": throughput, "ops": ops, "unit": ops_unit, "time_period": time_period,
+                "percent": percent_completed, "dependent": json.loads(json.dumps(dependent_timing, default=str)) if dependent_timing else None,
+                "vt": clock.now, "sampler_start": sampler.start_timestamp,
+            }
+        )
+        return orig_add(sampler, task, client_id, sample_type, meta_data, absolute_time, request_start, latency, service_time,
+                        processing_time, throughput, ops, ops_unit, time_period, percent_completed, dependent_timing)
+
+    driver.Sampler.add = add
+    undo.append(lambda: setattr(driver.Sampler, "add", orig_add))
+
+    def undo_all():
+        for u in reversed(undo):
+            u()
+
+    return undo_all
+
+
 class Recorder:
     def __init__(self):
         self.schedule = {}  # (client, task) -> list of yielded tuples
         self.logical = []
         self.samples = []
         self.start_info = {}  # (client, task) -> {"total_start": vt, "ramp_up": s}
+        self.runs = []  # one entry per AsyncExecutor invocation (a client running a task once)
 
 
 class Harness:
@@ -66,82 +165,7 @@ class Harness:
         self._undo.append(vclock.install_time_shims(self.shim))
         self.sim.install()
         self._undo.append(self.sim.uninstall)
-        rec, clock = self.rec, self.clock
-
-        # --- schedule tuples (read from the real ScheduleHandle so the oracle does not re-implement the scheduler)
-        orig_sh_call = driver.ScheduleHandle.__call__
-
-        def sh_call(handle):
-            agen = orig_sh_call(handle)
-            key = (handle.task_allocation.global_client_index, handle.task_allocation.task.name)
-
-            async def wrapped():
-                async for tup in agen:
-                    lst = rec.schedule.setdefault(key, [])
-                    lst.append({"scheduled": tup[0], "sample_type": int(tup[1]), "percent": tup[2], "vt": clock.now})
-                    yield tup
-
-            return wrapped()
-
-        driver.ScheduleHandle.__call__ = sh_call
-        self._undo.append(lambda: setattr(driver.ScheduleHandle, "__call__", orig_sh_call))
-
-        # --- issuer context per executor (client, task) and per logical request
-        orig_exec_call = driver.AsyncExecutor.__call__
-
-        async def exec_call(ex, *a, **k):
-            issuer = {"client": ex.client_id, "task": ex.task.name, "ordinal": -1}
-            simes.ISSUER.set(issuer)
-            rec.start_info[(ex.client_id, ex.task.name)] = {"vt_total_start": clock.now, "ramp_up": ex.schedule_handle.ramp_up_wait_time}
-            return await orig_exec_call(ex, *a, **k)
-
-        driver.AsyncExecutor.__call__ = exec_call
-        self._undo.append(lambda: setattr(driver.AsyncExecutor, "__call__", orig_exec_call))
-
-        orig_execute_single = driver.execute_single
-
-        async def execute_single(rnr, es, params, on_error):
-            issuer = simes.ISSUER.get()
-            entry = None
-            if issuer is not None:
-                issuer["ordinal"] += 1
-                issuer["wire"] = []
-                entry = {"client": issuer["client"], "task": issuer["task"], "ordinal": issuer["ordinal"], "vt_begin": clock.now, "wire": issuer["wire"]}
-                rec.logical.append(entry)
-            try:
-                res = await orig_execute_single(rnr, es, params, on_error)
-                if entry is not None:
-                    entry["vt_finish"] = clock.now
-                    entry["result"] = {"ops": res[0], "unit": res[1], "success": res[2].get("success") if isinstance(res[2], dict) else None}
-                return res
-            except BaseException as e:
-                if entry is not None:
-                    entry["vt_finish"] = clock.now
-                    entry["raised"] = type(e).__name__
-                raise
-
-        driver.execute_single = execute_single
-        self._undo.append(lambda: setattr(driver, "execute_single", orig_execute_single))
-
-        # --- samples
-        orig_add = driver.Sampler.add
-
-        def add(sampler, task, client_id, sample_type, meta_data, absolute_time, request_start, latency, service_time, processing_time,
-                throughput, ops, ops_unit, time_period, percent_completed, dependent_timing=None):
-            rec.samples.append(
-                {
-                    "task": task.name, "client": client_id, "sample_type": int(sample_type), "meta": dict(meta_data) if meta_data else meta_data,
-                    "absolute_time": absolute_time, "request_start": request_start, "latency": latency, "service_time": service_time,
-                    "processing_time": processing_time, "throughput": throughput, "ops": ops, "unit": ops_unit, "time_period": time_period,
-                    "percent": percent_completed, "dependent": json.loads(json.dumps(dependent_timing, default=str)) if dependent_timing else None,
-                    "vt": clock.now, "sampler_start": sampler.start_timestamp,
-                }
-            )
-            return orig_add(sampler, task, client_id, sample_type, meta_data, absolute_time, request_start, latency, service_time,
-                            processing_time, throughput, ops, ops_unit, time_period, percent_completed, dependent_timing)
-
-        driver.Sampler.add = add
-        self._undo.append(lambda: setattr(driver.Sampler, "add", orig_add))
+        self._undo.append(install_recorders(self.rec, self.clock))
 
     def run(self, trk, task_allocations, on_error="continue", cancel=None, complete=None, cfg_extra=None, max_vt=None, max_iterations=2_000_000):
         """task_allocations: list of (client_id, TaskAllocation). Returns (sampler, exception or None)."""
